@@ -1202,16 +1202,27 @@ func findLiteralFollowingLeadingLoop(node *RegexNode) *LiteralAfterLoop {
 	}
 
 	// Is the set loop followed by a case-sensitive string we can search for?
-	if prefix := findPrefix(nextChild); len(prefix) >= 1 {
+	prefix := findPrefix(nextChild)
+	// findPrefix works on UTF-8 bytes and cuts the common prefix of alternation branches at byte
+	// level, so it can end inside a rune: keep whole runes only.
+	for len(prefix) > 0 {
+		if r, size := utf8.DecodeLastRuneInString(prefix); r == utf8.RuneError && size == 1 {
+			prefix = prefix[:len(prefix)-1]
+			continue
+		}
+		break
+	}
+	if len(prefix) >= 1 {
 		// The literal can be searched for as either a single char or as a string.
 		// But we need to make sure that its starting character isn't part of the preceding
 		// set, as then we can't know for certain where the set loop ends.
-		if firstChild.Set.CharIn(rune(prefix[0])) {
+		first, size := utf8.DecodeRuneInString(prefix)
+		if firstChild.Set.CharIn(first) {
 			return nil
-		} else if len(prefix) == 1 {
+		} else if len(prefix) == size {
 			return &LiteralAfterLoop{
 				LoopNode: firstChild,
-				Char:     rune(prefix[0]),
+				Char:     first,
 			}
 		}
 		return &LiteralAfterLoop{
